@@ -100,9 +100,9 @@ bld("c02", "range_predicates", ["C02"], "quick", "lo <= hi and cur over all of u
 bld("c02", "range_from_impls", ["C02"], "quick", "a, b over all of usize, every From<range> impl", RANGE_F)
 bld("c02", "twin_c02_range_must_fail", ["C02"], "quick", "vacuity twin", RANGE_F, expect="fail")
 bld("c02", "matched_grouping_2", ["C02"], "quick", "2 symbolic ops from {new_val_group, append_val}", GROUP_F)
-bld("c02", "matched_grouping_3", ["C02"], "quick", "3 symbolic ops from {new_val_group, append_val}", GROUP_F, budget_s=1800)
+bld("c02", "matched_grouping_3", ["C02"], "thorough", "3 symbolic ops from {new_val_group, append_val}", GROUP_F, budget_s=1800, mem_gb=14)
 bld("c02", "matched_indices", ["C02"], "quick", "0..=3 push_index calls with indices over all of usize", GROUP_F)
-bld("c02", "matched_grouping_4", ["C02"], "thorough", "4 symbolic ops from {new_val_group, append_val}", GROUP_F, budget_s=3600)
+bld("c02", "matched_grouping_4", ["C02"], "thorough", "4 symbolic ops from {new_val_group, append_val}", GROUP_F, budget_s=3600, mem_gb=20)
 
 SRC_F = ["clap_builder::parser::ValueSource::{Ord,max,is_explicit}", "clap_builder::parser::MatchedArg::{set_source,source,check_explicit}"]
 bld("c06", "source_order", ["C06", "C03"], "quick", "all pairs of ValueSource", SRC_F)
@@ -120,3 +120,45 @@ ERR_F = ["clap_builder::error::Error::{new,set_message,kind,stream,use_stderr,ex
 bld("c10", "exit_contract", ["C10"], "quick", "every ErrorKind (17 variants, exhaustive match)", ERR_F)
 bld("c10", "exit_contract_raw", ["C10"], "quick", "every ErrorKind, error carrying a message", ERR_F)
 bld("c10", "twin_c10_must_fail", ["C10"], "quick", "vacuity twin", ERR_F, expect="fail")
+
+WRAP_F = ["clap_builder::output::textwrap::core::display_width (+ch_width, unicode off)", "clap_builder::output::textwrap::word_separators::find_words_ascii_space"]
+for L, tier in [(1, "quick"), (2, "quick"), (3, "quick"), (4, "quick"), (5, "thorough"), (6, "thorough")]:
+    bld("c20", f"display_width_{L}", ["C20"], tier, f"every ASCII string of {L} bytes (all 128 values per byte, incl. ESC/control/'m')", WRAP_F)
+for L, tier in [(1, "quick"), (2, "quick"), (3, "quick"), (4, "thorough"), (5, "thorough")]:
+    bld("c20", f"find_words_{L}", ["C20"], tier, f"every ASCII string of {L} bytes", WRAP_F, budget_s=1500)
+bld("c20", "twin_c20_must_fail", ["C20"], "quick", "vacuity twin", WRAP_F, expect="fail")
+
+# ---- C04
+import c04_table  # noqa: E402
+
+RANGED_STUBS_I64 = ["std::fmt::format", "crate::error::Error::with_cmd", "crate::error::Error::value_validation",
+                    "crate::builder::value_parser::RangedI64ValueParser::format_bounds"]
+RANGED_STUBS_U64 = RANGED_STUBS_I64[:3] + ["crate::builder::value_parser::RangedU64ValueParser::format_bounds"]
+RANGED_F = ["clap_builder::builder::RangedI64ValueParser::<T>::{from((Bound,Bound)),parse_ref}", "clap_builder::builder::RangedU64ValueParser::<T>::{from,parse_ref}",
+            "core::str::parse::<i64|u64>", "TryFrom<i64|u64> for T", "RangeBounds::contains"]
+for r in c04_table.rows():
+    bld("c04", r["name"], ["C04"], r["tier"],
+        f"literal {r['lit']!r} x EVERY range: lo, hi any 64-bit value, start/end bound each Included|Excluded|Unbounded; target type {r['ty']} ({'RangedI64ValueParser' if r['parser']=='i64' else 'RangedU64ValueParser'})",
+        RANGED_F, stubs=RANGED_STUBS_I64 if r["parser"] == "i64" else RANGED_STUBS_U64,
+        budget_s=1200 if len(r["lit"]) <= 6 else 5400, mem_gb=12)
+bld("c04", "twin_c04_ranged_must_fail", ["C04"], "quick", "vacuity twin", RANGED_F, stubs=RANGED_STUBS_I64, expect="fail", budget_s=1200)
+
+BOOL_F = ["clap_builder::util::str_to_bool", "clap_builder::builder::{BoolishValueParser,FalseyValueParser,BoolValueParser}::parse_ref"]
+BOOL_STUBS = ["std::fmt::format", "crate::error::Error::with_cmd", "crate::error::Error::value_validation"]
+for lit, tier in [("y", "thorough"), ("yes", "thorough"), ("t", "thorough"), ("true", "quick"), ("on", "thorough"), ("1", "thorough"),
+                  ("n", "thorough"), ("no", "thorough"), ("f", "thorough"), ("false", "thorough"), ("off", "quick"), ("0", "thorough"),
+                  ("empty", "quick"), ("2", "thorough"), ("tru", "quick"), ("yess", "thorough"), ("onn", "thorough"), ("of", "thorough")]:
+    bld("c04", f"str_to_bool_{lit}", ["C04"], tier, f"word {lit!r} with a symbolic ASCII case per letter -> util::str_to_bool", BOOL_F,
+        stubs=["str::to_lowercase"], budget_s=1500)
+for lit, tier in [("yes", "thorough"), ("off", "thorough"), ("tru", "quick"), ("empty", "thorough"), ("0", "thorough")]:
+    bld("c04", f"boolish_{lit}", ["C04"], tier, f"word {lit!r} with a symbolic ASCII case per letter -> BoolishValueParser::parse_ref", BOOL_F,
+        stubs=BOOL_STUBS + ["str::to_lowercase", "crate::output::usage::Usage::create_usage_with_title"], budget_s=1500)
+    bld("c04", f"falsey_{lit}", ["C04"], "thorough", f"word {lit!r} with a symbolic ASCII case per letter -> FalseyValueParser::parse_ref", BOOL_F,
+        stubs=["str::to_lowercase", "crate::output::usage::Usage::create_usage_with_title"], budget_s=1500)
+for lit, tier in [("true", "quick"), ("false", "thorough"), ("t", "thorough"), ("yes", "thorough"), ("1", "thorough"), ("truee", "thorough")]:
+    bld("c04", f"bool_exact_{lit}", ["C04"], tier, f"word {lit!r} with a symbolic ASCII case per letter (BoolValueParser is case-sensitive)", BOOL_F,
+        stubs=["std::fmt::format", "crate::error::Error::with_cmd", "crate::error::Error::invalid_value"], budget_s=1500)
+PV_F = ["clap_builder::builder::PossibleValue::{new,alias,matches,get_name_and_aliases}", "clap_builder::util::eq_ignore_case (unicode off)"]
+for lit, tier in [("fast", "quick"), ("quick", "thorough"), ("fas", "quick"), ("fastt", "thorough"), ("quic", "thorough"), ("slow", "thorough")]:
+    bld("c04", f"possible_{lit}", ["C04"], tier, f"candidate {lit!r} with a symbolic ASCII case per letter, symbolic ignore_case, against name 'fast' + alias 'quick'", PV_F)
+bld("c04", "twin_c04_possible_must_fail", ["C04"], "quick", "vacuity twin", PV_F, expect="fail")
